@@ -4,7 +4,7 @@
 From Coq Require Import List NArith Bool Arith Sorted.
 From Coq Require Import Strings.Byte.
 Require Import BS.Bytes BS.Common BS.Api BS.Layout BS.Format BS.FormatFacts BS.Spec BS.SpecStep.
-Require Import BS.FS BS.FSFacts BS.Meta BS.MetaFacts BS.Header BS.Reader BS.ReaderFacts BS.Index BS.Data BS.DataFacts BS.Seek BS.Series BS.SeriesFacts BS.Sections BS.ExtractFacts BS.HeaderFacts BS.OpenFacts BS.TornFacts BS.TornGenFacts BS.ConformFacts BS.MetaGenFacts.
+Require Import BS.FS BS.FSFacts BS.Meta BS.MetaFacts BS.Header BS.Reader BS.ReaderFacts BS.Index BS.Data BS.DataFacts BS.Seek BS.Series BS.SeriesFacts BS.Sections BS.ExtractFacts BS.HeaderFacts BS.OpenFacts BS.TornFacts BS.TornGenFacts BS.ConformFacts BS.MetaGenFacts BS.World.
 Require BSgen.MetaLayout.
 Import ListNotations.
 
@@ -70,6 +70,22 @@ Theorem C07_reference_file_read_back : forall p fs name uhdr popt hdropt cb l,
     /\ (read_all s Unb Unb fs' = (fs', Ok l) \/ (l = [] /\ read_all s Unb Unb fs' = (fs', Err ERange))).
 Proof. exact reference_file_read_back. Qed.
 Print Assumptions C07_reference_file_read_back.
+
+(* REFUTED beyond the reference encoding (known finding D18-early-full-time): the documented layout lets a writer store a full
+   timestamp EARLIER than the line that follows it (the 16 bit time counts from the last full time). The witness file below
+   is decoded by the reference decoder into four lines; the model of the library - bug for bug, the same script is replayed on
+   the implementation on every run (corpus/C07/d18_early_full_time.bs) - reads all four back in a full read, but reports the
+   first full timestamp (10) as the start of the range although the first line is at 15, returns the lines at 100007 and
+   100009 for the end bound ..=100003, and counts 8 lines there. *)
+Theorem C07_early_full_time_refuted :
+  decode 1 d18_region = Some [(15%N, [xaa]); (16%N, [xbb]); (100007%N, [xcc]); (100009%N, [xdd])]
+  /\ skipn 3 (snd (World.run World.init_world d18_ops))
+     = [ROpened 1 []; RLines [(15%N, [xaa]); (16%N, [xbb]); (100007%N, [xcc]); (100009%N, [xdd])];
+        RRange (Some (10%N, 100009%N));
+        RLines [(15%N, [xaa]); (16%N, [xbb]); (100007%N, [xcc]); (100009%N, [xdd])];
+        RNum 8].
+Proof. exact d18_refuted. Qed.
+Print Assumptions C07_early_full_time_refuted.
 (* partial: files that follow the documented layout but are NOT the reference encoding (a full timestamp where a delta would
    have fitted, index files of earlier releases that carry a copy of the header) are judged on generated variants and on the two
    release-written files under assets/, not proved. *)
